@@ -17,7 +17,7 @@ import (
 
 func init() {
 	oracles["C16"] = &oracle{
-		rule:  "v: random programs biased towards nesting (blocks, function declarations, function expressions as values, in call arguments, object/array literals, conditions, IIFEs; depth up to 5) rendered by the reference unparser in all layouts x 4 modes, probes si:q1 ei:q2, every event checked against the renderer's own nesting record of the current token; m: parse corpus, generated programs, token/byte mutations, fragment soup x 4 modes x with/without interceptors: context back at top level after parsing; non-trivial = at least one event below top level (v) / at least one '{' or 'function' in the input (m); distinct by (input, set of expected contexts x probe kinds, depth)",
+		rule:  "v: random programs biased towards nesting (blocks, function declarations, function expressions as values, in call arguments, object/array literals, conditions, IIFEs; depth up to 5) rendered by the reference unparser in all layouts x 4 modes, probes si:q1 ei:q2 or selective probes only (asking at some of let/return/function), every event checked against the renderer's own nesting record of the current token; m: parse corpus, generated programs, token/byte mutations, fragment soup x 4 modes x with/without interceptors: context back at top level after parsing; non-trivial = at least one event below top level (v) / at least one '{' or 'function' in the input (m); distinct by (input, set of expected contexts x probe kinds, depth)",
 		gen:   genC16,
 		check: countFailures(checkC16),
 	}
@@ -224,7 +224,17 @@ func checkC16(line string, dist map[string]int) (detail, sig, class string) {
 	fmt.Sscan(f[1], &seed)
 	_, txt, rt, mode := c16Case(seed)
 	dist["v mode="+mode]++
+	// half of the cases ask at every statement and expression; the others install
+	// selective probes only (they ask at some of let / return / function), so that two
+	// consecutive questions can fall under different context stacks of the same depth
 	cfg := "si:q1;ei:q2"
+	switch (seed >> 3) % 4 {
+	case 2:
+		cfg = fmt.Sprintf("si:s%d", 20+(seed>>5)%7)
+	case 3:
+		cfg = fmt.Sprintf("si:s%d;ei:s%d", 20+(seed>>5)%7, 20+(seed>>8)%7)
+	}
+	dist["v probes="+strings.NewReplacer("0", "", "1", "", "2", "", "3", "", "4", "", "5", "", "6", "", "7", "", "8", "", "9", "").Replace(cfg)]++
 	if mode != "-" {
 		cfg = mode + ";" + cfg
 	}
